@@ -93,7 +93,7 @@ def _run(rs, ctx):
         nd = int(gen.pick(rs, [17, 20, 24]))  # a million buckets: hash codes far above 1e5
     n_jobs = int(gen.pick(rs, [1, 2, 3]))
     cfg = {"arms": arms, "labels": labels, "lp": gen.gen_lp(rs, lk, deterministic=True),
-           "reward_stress": int(rs.integers(6)) if rs.integers(5) == 0 else None,
+           "reward_stress": int(rs.integers(8)) if rs.integers(5) == 0 else None,
            "np": {"kind": "lsh", "n_dimensions": nd, "n_tables": nt, "probs": None},
            "seed": int(rs.integers(10 ** 6)), "n_jobs": n_jobs, "backend": "threading" if n_jobs > 1 else None}
     n_chunks = int(rs.integers(1, 7))
